@@ -127,6 +127,7 @@ func TestVerif_C19_Blip(t *testing.T) {
 			b.Close()
 		}
 	}()
+	knownBlank := kit.Known("C19", vfC19SigBlankObject)
 	rapid.Check(t, func(rt *rapid.T) {
 		defer vfC19Inconclusive(rt, rec)
 		var ops []string
@@ -154,6 +155,10 @@ func TestVerif_C19_Blip(t *testing.T) {
 			}
 			body := vfC19GenBody(rt, vfC19GenCfg{MaxDepth: 6, NoHugeFloat: !last})
 			st := vfC19GenStyle(rt)
+			if vfC19BlankObjectShape(w, body, st) && knownBlank {
+				rec.Excluded(vfC19SigBlankObject)
+				st = &vfC19Style{Compact: true}
+			}
 			var exp *vfC19Val
 			if strings.HasPrefix(w, "blip") && rapid.IntRange(0, 5).Draw(rt, "exp") == 0 {
 				exp = rapid.SampledFrom(vfC19ExpValues).Draw(rt, "expval")
@@ -175,7 +180,7 @@ func TestVerif_C19_Blip(t *testing.T) {
 						gen = vfC19RevGen(parent.RevID) + 1
 						history = parent.RevID
 					}
-					rev = fmt.Sprintf("%d-%s", gen, rapid.SampledFrom([]string{"abc", "0a0a", "zzz"}).Draw(rt, "digest"))
+					rev = fmt.Sprintf("%d-%s", gen, rapid.SampledFrom([]string{"abc", "0a0a", "fed"}).Draw(rt, "digest"))
 				} else {
 					b.cvN++
 					rev = strconv.FormatUint(b.cvN, 16) + "@c19src"
@@ -272,6 +277,7 @@ func TestVerif_C19_ISGR(t *testing.T) {
 	active := &vfC19Env{t: t, rt: peers.ActiveRT, ks: peers.ActiveRT.GetSingleKeyspace(), ctx: peers.ActiveRT.Context(), since: "0", test: "ISGR"}
 	passive := &vfC19Env{t: t, rt: peers.PassiveRT, ks: peers.PassiveRT.GetSingleKeyspace(), ctx: peers.PassiveRT.Context(), since: "0", test: "ISGR"}
 	round := 0
+	knownBlank := kit.Known("C19", vfC19SigBlankObject)
 	rapid.Check(t, func(rt *rapid.T) {
 		defer vfC19Inconclusive(rt, rec)
 		var ops []string
@@ -292,6 +298,10 @@ func TestVerif_C19_ISGR(t *testing.T) {
 				w := rapid.SampledFrom([]string{"PUT", "bulk", "import", "bulk-noedits"}).Draw(rt, "w")
 				body := vfC19GenBody(rt, vfC19GenCfg{MaxDepth: 6})
 				st := vfC19GenStyle(rt)
+				if vfC19BlankObjectShape(w, body, st) && knownBlank {
+					rec.Excluded(vfC19SigBlankObject)
+					st = &vfC19Style{Compact: true}
+				}
 				res, text, esc := active.write(w, docID, body, st, "", "1-abc", nil, &ops)
 				if res.Code != 201 || res.RevID == "" {
 					c.fail("write by %s of a valid body was not accepted: status %d %s", w, res.Code, vfC19Clip(res.Reason))
@@ -306,6 +316,11 @@ func TestVerif_C19_ISGR(t *testing.T) {
 				sigParts = append(sigParts, fmt.Sprintf("%s esc=%v %s", w, esc, vfC19Canon(body)))
 				items = append(items, item{docID, r})
 			}
+			// the one-shot run replicates what the active gateway's change cache holds: wait (with the
+			// product's request_plus) until the last write is on the feed, reading it on the way
+			last := items[len(items)-1]
+			c.docID = last.id
+			c.changes(last.rev)
 			// one-shot push replication, created and watched over the admin REST API
 			replID := fmt.Sprintf("c19-%d", round)
 			cfg := vfC19Obj().Set("replication_id", vfC19Str(replID)).Set("direction", vfC19Str("push")).Set("remote", vfC19Str(peers.PassiveDBURL)).
@@ -318,13 +333,32 @@ func TestVerif_C19_ISGR(t *testing.T) {
 			if ar.Code != 201 {
 				panic(kit.InconclusiveErr{Msg: fmt.Sprintf("creating replication: %d %s", ar.Code, ar.Body)})
 			}
+			// completion signal: the manager flips the *target state* of a one-shot replication to
+			// "stopped" only when the run has completed (the status alone reads "stopped" before the run starts)
 			deadline := time.Now().Add(vfC19WaitBound)
 			for {
+				target := ""
+				if rc, err := active.rt.GetDatabase().SGReplicateMgr.GetReplication(replID); err == nil && rc != nil {
+					target = rc.TargetState
+				}
 				sr := active.admin("GET", "/activedb/_replicationStatus/"+replID, "")
+				status, errMsg := "", ""
 				if sr.Code == 200 {
-					if v, err := vfC19Decode(sr.Body); err == nil && v.Get("status") != nil && v.Get("status").Str == "stopped" {
-						break
+					if v, err := vfC19Decode(sr.Body); err == nil && v.Kind == 'o' {
+						if x := v.Get("status"); x != nil {
+							status = x.Str
+						}
+						if x := v.Get("error_message"); x != nil {
+							errMsg = x.Str
+						}
 					}
+				}
+				if status == "error" {
+					panic(kit.InconclusiveErr{Msg: "replication in error state: " + errMsg})
+				}
+				if target == "stopped" && status == "stopped" {
+					ops = append(ops, "replication stopped: "+string(sr.Body))
+					break
 				}
 				if time.Now().After(deadline) {
 					panic(kit.InconclusiveErr{Msg: "one-shot replication did not reach stopped: " + string(sr.Body)})
